@@ -495,6 +495,10 @@ def pairpos(rep, c):
         args = hirq.call_args(pos)
         okpos = any(kind(peel(a)) == "Field" and peel(a)["name"] == "start" for a in args) and not any(
             kind(peel(a)) == "Field" and peel(a)["name"] == "end" for a in args)
+        if not okpos and kind(pos) == "MethodCall":
+            # `self.queue[self.start].input_pos()`: the token is picked by indexing with the start field
+            idxs = [peel(y["idx"]) for y in walk(pos["recv"]) if kind(y) == "Index"]
+            okpos = bool(idxs) and all(kind(i) == "Field" and i["name"] == "start" for i in idxs)
     elif kind(pos) == "Block" and pos.get("inlined"):
         args = hirq.call_like_args(pos) or []
         okpos = any(kind(peel(a)) == "Field" and peel(a)["name"] == "start" for a in args)
